@@ -256,6 +256,8 @@ func toInt(v any) int {
 		return int(x)
 	case ctxErr:
 		return x.id
+	case panicErr:
+		return int(x)
 	case error:
 		return -1
 	}
@@ -301,6 +303,11 @@ func (s snap) ints() []int {
 type idErr int
 
 func (e idErr) Error() string { return "fail#" + strconv.Itoa(int(e)) }
+
+// panicErr is a failure whose text cannot be asked for
+type panicErr int
+
+func (e panicErr) Error() string { panic("Error() of a failure value called by the pipeline") }
 
 // ctxErr is a step failure that wraps a context error (its own deadline, not the pipeline's)
 type ctxErr struct {
